@@ -1,0 +1,99 @@
+//go:build verif
+
+// Effect contracts for the public API (property C14). Comment-only.
+//
+// `cancellable`: every operation in the function - and in everything it calls on the same
+// goroutine - that can block on a channel can be abandoned when a context is cancelled: it is a
+// select with a case on a context's Done() channel, a receive from a response channel made by the
+// function itself, or a buffered/answer send. Audited structurally from the SSA (gocv audit).
+
+package pubsub
+
+//@ func (*PubSub).AddDirectPeer
+//@   property C14
+//@   cancellable
+
+//@ func (*PubSub).BlacklistPeer
+//@   property C14
+//@   cancellable
+
+//@ func (*PubSub).GetTopics
+//@   property C14
+//@   cancellable
+
+//@ func (*PubSub).Join
+//@   property C14
+//@   cancellable
+
+//@ func (*PubSub).ListPeers
+//@   property C14
+//@   cancellable
+
+//@ func (*PubSub).PeerFeedback
+//@   property C14
+//@   cancellable
+
+//@ func (*PubSub).Publish
+//@   property C14
+//@   cancellable
+
+//@ func (*PubSub).PublishBatch
+//@   property C14
+//@   cancellable
+
+//@ func (*PubSub).RegisterTopicValidator
+//@   property C14
+//@   cancellable
+
+//@ func (*PubSub).RemoveDirectPeer
+//@   property C14
+//@   cancellable
+
+//@ func (*PubSub).Subscribe
+//@   property C14
+//@   cancellable
+
+//@ func (*PubSub).UnregisterTopicValidator
+//@   property C14
+//@   cancellable
+
+//@ func (*Subscription).Cancel
+//@   property C14
+//@   cancellable
+
+//@ func (*Subscription).Next
+//@   property C14
+//@   cancellable
+
+//@ func (*Topic).Close
+//@   property C14
+//@   cancellable
+
+//@ func (*Topic).EventHandler
+//@   property C14
+//@   cancellable
+
+//@ func (*Topic).ListPeers
+//@   property C14
+//@   cancellable
+
+//@ func (*Topic).Relay
+//@   property C14
+//@   cancellable
+
+//@ func (*Topic).SetScoreParams
+//@   property C14
+//@   cancellable
+
+//@ func (*Topic).Subscribe
+//@   property C14
+//@   cancellable
+
+//@ func (*TopicEventHandler).Cancel
+//@   property C14
+//@   cancellable
+
+//@ func (*validation).sendMsgBlocking
+//@   property C14
+//@   cancellable
+
